@@ -272,7 +272,7 @@ class AbstractDateTime(AnyAtomicType):
         else:
             raise TypeError("wrong type %r for operand %r" % (type(other), other))
 
-        if self._year != year:
+        if self._year != year and not (1 <= self._year <= 9999 and 1 <= year <= 9999):
             return op(self._year, year)
         elif self._dt.tzinfo is dt.tzinfo:
             return op(self._dt, dt)
